@@ -36,7 +36,7 @@ func c03r1(r *R) {
 	good := false
 	var wrapped ssa.Value
 	if nr != nil {
-		mi, ok := nr.Common().Args[0].(*ssa.MakeInterface)
+		mi, ok := refArgs(nr.Common())[0].(*ssa.MakeInterface)
 		if ok && typeStr(mi.X.Type()) == "dialvia.byteReader" {
 			// byteReader{conn}: a local struct literal whose field r is the conn
 			if ld, ok := mi.X.(*ssa.UnOp); ok {
@@ -74,7 +74,7 @@ func c03r1(r *R) {
 		}
 		// ... or a function split out of DialContextR that is handed that reader
 		if h := rr.Parent(); !bound && isNewHelper(h) {
-			if prm, ok := rr.Common().Args[0].(*ssa.Parameter); ok {
+			if prm, ok := refArgs(rr.Common())[0].(*ssa.Parameter); ok {
 				idx := -1
 				for i, q := range h.Params {
 					if q == prm {
@@ -106,7 +106,7 @@ func c03r1(r *R) {
 				}
 			}
 		}
-		good = good && (bound || rr.Parent() == dl && rr.Common().Args[0] == ssa.Value(nr))
+		good = good && (bound || rr.Parent() == dl && refArgs(rr.Common())[0] == ssa.Value(nr))
 	}
 	r.check(good, "DialContextR#reply-reader", rr.Pos(), "ReadResponse reads through bufio over byteReader{conn}", "the CONNECT reply is read through a reader that may buffer bytes beyond the reply head: early tunnel data from the target would be lost")
 	// byteReader.Read asks for one byte
@@ -371,7 +371,7 @@ func c03r4(r *R) {
 // paramOfType names the single parameter of fn that has the given type ("$k").
 func paramOfType(r *R, fn *ssa.Function, typ string) string {
 	out := ""
-	for i, p := range fn.Params {
+	for i, p := range refParams(fn) { // printed positions are reference positions
 		if typeStr(p.Type()) == typ {
 			if out != "" {
 				r.missing("a single %s parameter in %s", typ, fname(fn))
